@@ -261,6 +261,14 @@ func (p *parser) finishParsingBodyAttribute(ident Token, singleLine bool) (Node,
         }
     }
 
+    if expr != nil {
+        // after a syntax error the placeholder expression sits on the offending
+        // token, which has not been consumed: the attribute still contains it
+        if er := expr.Range(); er.End.Byte > endRange.End.Byte {
+            endRange = er
+        }
+    }
+
     return &Attribute{
         Name: string(ident.Bytes),
         Expr: expr,
